@@ -30,21 +30,27 @@ Definition get_postings (asset : string) (snd rcv : list entry) (st : state) : r
   | Some ps => Ok (ps, mkstate (apply_postings (st_cache st) ps) (st_txmeta st) (st_accmeta st))
   end.
 
-Definition run_send (vs : env) (sv : sent) (src : source) (dst : dest) (st : state) : res (list posting * state) :=
+(* the draw list and the distribution list of a send statement *)
+Definition send_lists (vs : env) (sv : sent) (src : source) (dst : dest) (cache : balances)
+  : res (string * list entry * list entry) :=
   match sv with
   | SVNil => Panic "runSendStatement: non exhaustive match (nil)"
   | SVAll _ a =>
       asset <- eval_as vs a expect_asset ;;
-      '(sent, snd) <- send_all vs (st_cache st) asset src [] ;;
+      '(sent, snd) <- send_all vs cache asset src [] ;;
       rcv <- receive_from vs asset dst sent [] ;;
-      get_postings asset snd rcv st
+      Ok (asset, snd, rcv)
   | SVLit _ m =>
       '(asset, amt) <- eval_as vs m expect_monetary ;;
       if amt <? 0 then Err (NegativeAmountErr amt) else
-      snd <- try_sending_exact vs (st_cache st) asset src amt [] ;;
+      snd <- try_sending_exact vs cache asset src amt [] ;;
       rcv <- receive_from vs asset dst amt [] ;;
-      get_postings asset snd rcv st
+      Ok (asset, snd, rcv)
   end.
+
+Definition run_send (vs : env) (sv : sent) (src : source) (dst : dest) (st : state) : res (list posting * state) :=
+  '(asset, snd, rcv) <- send_lists vs sv src dst (st_cache st) ;;
+  get_postings asset snd rcv st.
 
 Definition run_save (vs : env) (sv : sent) (acct_e : expr) (st : state) : res (list posting * state) :=
   '(asset, amt) <- eval_sent_amt vs sv ;;
